@@ -309,3 +309,26 @@ Definition c07_tags_ok (c : ncase) : bool :=
   match c with (n, evs, obss) => c07_tag_walk (n_me n) (o_inactivity (n_opts n)) [] (init_ist n) evs obss end.
 Definition spec_violations_c07t (cs : list ncase) : list nat :=
   find_idx (fun c => negb (nspec_ok fl_c07 c) || negb (c07_tags_ok c)) cs.
+
+(* ---------- C09 at node level: the Master leaves an ending state only when the Stopper is idle ---------- *)
+(* known finding F4 (theorem early_final_witness): the consistence check of an ending state (local instance not
+   RUNNING, failure strategy, Master inconsistency) turns into FINAL before the Stopper-idle test. The class: an event
+   whose first evaluation has the Stopper busy, handled by the Master in RESTARTING / SHUTTING_DOWN, ending in FINAL. *)
+Definition first_stopping (e : event) : bool :=
+  let orcs := match e with
+              | LocalTick _ _ o | PeerState _ _ _ _ _ _ o | ProcCrash _ _ _ o | ReqRestart _ o | ReqShutdown _ o
+              | ReqEndSync _ _ o => o
+              | _ => []
+              end in
+  match orcs with o :: _ => or_stopping o | [] => false end.
+
+Fixpoint c09_early_final_walk (me prev_fsm prev_master : Z) (evs : list event) (obss : list obs) : bool :=
+  match evs, obss with
+  | e :: re, NOk o :: ro =>
+      ((Z.eqb prev_fsm 6 || Z.eqb prev_fsm 7) && Z.eqb prev_master me && first_stopping e && Z.eqb (obs_fsm o) 8)
+      || c09_early_final_walk me (obs_fsm o) (obs_master o) re ro
+  | _, _ => false
+  end.
+Definition known_c09_early_final (cs : list ncase) : list nat :=
+  find_idx (fun c => match c with (n, evs, obss) =>
+              c09_early_final_walk (n_me n) (scode (fsm_state n)) (master n) evs obss end) cs.
